@@ -213,81 +213,84 @@ theorem loopK_comp_all (c : Cfg) (hcomp : c.compress = true) (cfg : WCfg) :
 
 theorem sendAll_comp_out (c : Cfg) (cfg : WCfg) (hcfg : cfg.compress ≠ 0) :
     ∀ (sends : List Send) (w : W C.D) (d : C.D.St),
-    w.ws.closing = false → w.ws.transportClosing = false → w.comp.getD (C.D.init cfg.compress) = d →
-    OkComp C c cfg d sends →
-    (sendAll cfg w sends).ws.out = w.ws.out ++ compWire C cfg d sends := by
+    w.ws.transportClosing = false → w.comp.getD (C.D.init cfg.compress) = d →
+    (∀ s ∈ sends, s.compress = 0 ∧ (s.opcode = 1 ∨ s.opcode = 2 ∨ s.opcode = 8 ∨ s.opcode = 9 ∨ s.opcode = 10)) →
+    OkComp C c cfg d (accepted w.ws.closing sends) →
+    (sendAll cfg w sends).ws.out = w.ws.out ++ compWire C cfg d (accepted w.ws.closing sends) := by
   intro sends
   induction sends with
-  | nil => intro w d _ _ _ _; simp [sendAll, compWire]
+  | nil => intro w d _ _ _ _; simp [sendAll, compWire, accepted]
   | cons s ss ih =>
-    intro w d hc ht hd hok
-    obtain ⟨hs0, _, hrest⟩ := hok
-    by_cases hctl : s.opcode ≥ 8
-    · rw [if_pos hctl] at hrest
-      obtain ⟨hokp, hokr⟩ := hrest
-      have hop : s.opcode = 8 ∨ s.opcode = 9 ∨ s.opcode = 10 := by
-        rcases okPlain_opcode hokp with h | ⟨h, _⟩
-        · rcases h with h | h <;> omega
-        · exact h
-      have hfb : ¬ ((0x80 ||| 0 ||| s.opcode) > 255 ∨ s.payload.length ≥ 2 ^ 64) := by
-        have := (fb_facts s.opcode (by rcases hop with h | h | h <;> simp [h]) 0 (by simp)).1
-        have h64 : (2:Nat)^63 < 2^64 := by decide
-        have := hokp.1
-        omega
-      have hroute : route cfg s.opcode s.compress s.payload.length = .plain := by
-        unfold route; simp [hs0, Gen.C11.controlOpcode, hctl]
-      have hstep : (sendFrame cfg w s.payload s.opcode s.compress s.maskKey).1.ws.out
-            = w.ws.out ++ plainFrame cfg.useMask s ∧
-          (sendFrame cfg w s.payload s.opcode s.compress s.maskKey).1.ws.closing = false ∧
-          (sendFrame cfg w s.payload s.opcode s.compress s.maskKey).1.ws.transportClosing = false ∧
-          (sendFrame cfg w s.payload s.opcode s.compress s.maskKey).1.comp = w.comp := by
-        unfold sendFrame
-        simp only [hc, Bool.false_eq_true, false_and, if_false, hroute]
-        unfold sendFrameZ
-        simp only [hc, Bool.false_eq_true, false_and, if_false, hroute]
-        unfold writeFrame
-        simp only [hfb, if_false, ht, Bool.false_eq_true]
-        cases hm : cfg.useMask <;>
-          simp [afterSend, plainFrame, wirePayload, hc, ht] <;> (split <;> simp [hc, ht])
-      have hw : compWire C cfg d (s :: ss) = plainFrame cfg.useMask s ++ compWire C cfg d ss := by
-        simp [compWire, hctl]
-      simp only [sendAll]
-      rw [ih _ d hstep.2.1 hstep.2.2.1 (by rw [hstep.2.2.2]; exact hd) hokr, hstep.1, hw]
-      simp
-    · rw [if_neg hctl] at hrest
-      obtain ⟨hokd, hokr⟩ := hrest
-      have hop : s.opcode = 1 ∨ s.opcode = 2 := hokd.1
-      have hfb : ¬ ((0x80 ||| 0x40 ||| s.opcode) > 255 ∨
-          (stripTrailing (C.D.deflate d s.payload cfg.notakeover).2).length ≥ 2 ^ 64) := by
-        have := (fb_facts s.opcode (by rcases hop with h | h <;> simp [h]) 64 (by simp)).1
-        have h64 : (2:Nat)^63 < 2^64 := by decide
-        have := hokd.2.1
-        omega
-      have hroute : route cfg s.opcode s.compress s.payload.length =
-          .shared cfg.compress cfg.notakeover (decide (¬ s.payload.length ≤ Gen.C11.maxSyncChunk)) := by
-        unfold route
-        have : ¬ s.opcode ≥ Gen.C11.controlOpcode := by simpa [Gen.C11.controlOpcode] using hctl
-        simp [hs0, hcfg, this]
-      have hstep : (sendFrame cfg w s.payload s.opcode s.compress s.maskKey).1.ws.out
-            = w.ws.out ++ deflFrame cfg.useMask s (stripTrailing (C.D.deflate d s.payload cfg.notakeover).2) ∧
-          (sendFrame cfg w s.payload s.opcode s.compress s.maskKey).1.ws.closing = false ∧
-          (sendFrame cfg w s.payload s.opcode s.compress s.maskKey).1.ws.transportClosing = false ∧
-          (sendFrame cfg w s.payload s.opcode s.compress s.maskKey).1.comp =
-            some (C.D.deflate d s.payload cfg.notakeover).1 := by
-        unfold sendFrame
-        simp only [hc, Bool.false_eq_true, false_and, if_false, hroute, hd]
-        unfold sendFrameZ
-        simp only [hc, Bool.false_eq_true, false_and, if_false, hroute]
-        unfold writeFrame
-        simp only [hfb, if_false, ht, Bool.false_eq_true]
-        cases hm : cfg.useMask <;>
-          simp [afterSend, deflFrame, wirePayload, hc, ht] <;> (split <;> simp [hc, ht])
-      have hw : compWire C cfg d (s :: ss) =
-          deflFrame cfg.useMask s (stripTrailing (C.D.deflate d s.payload cfg.notakeover).2) ++
-            compWire C cfg (C.D.deflate d s.payload cfg.notakeover).1 ss := by
-        simp [compWire, hctl]
-      simp only [sendAll]
-      rw [ih _ _ hstep.2.1 hstep.2.2.1 (by rw [hstep.2.2.2]; rfl) hokr, hstep.1, hw]
-      simp
+    intro w d ht hd hops hok
+    obtain ⟨hs0, hopv⟩ := hops s (by simp)
+    have hopsr : ∀ x ∈ ss, x.compress = 0 ∧ (x.opcode = 1 ∨ x.opcode = 2 ∨ x.opcode = 8 ∨ x.opcode = 9 ∨ x.opcode = 10) :=
+      fun x hx => hops x (by simp [hx])
+    by_cases hno : w.ws.closing = true ∧ s.opcode &&& 8 = 0
+    · have hsf : (sendFrame cfg w s.payload s.opcode s.compress s.maskKey).1 = w := by
+        unfold sendFrame; rw [if_pos hno]
+      simp only [accepted, if_pos hno] at hok ⊢
+      simp only [sendAll, hsf]
+      exact ih w d ht hd hopsr hok
+    · simp only [accepted, if_neg hno] at hok ⊢
+      obtain ⟨_, _, hrest⟩ := hok
+      by_cases hctl : s.opcode ≥ 8
+      · rw [if_pos hctl] at hrest
+        obtain ⟨hokp, hokr⟩ := hrest
+        have hop : s.opcode = 8 ∨ s.opcode = 9 ∨ s.opcode = 10 := by
+          rcases hopv with h | h | h | h | h <;> first | omega | simp [h]
+        have hfb : ¬ ((0x80 ||| 0 ||| s.opcode) > 255 ∨ s.payload.length ≥ 2 ^ 64) := by
+          have := (fb_facts s.opcode (by rcases hop with h | h | h <;> simp [h]) 0 (by simp)).1
+          have h64 : (2:Nat)^63 < 2^64 := by decide
+          have := hokp.1
+          omega
+        have hroute : route cfg s.opcode s.compress s.payload.length = .plain := by
+          unfold route; simp [hs0, Gen.C11.controlOpcode, hctl]
+        have hplan : framePlan cfg s.payload s.opcode s.compress [] = (s.payload, 0) := by
+          unfold framePlan; rw [hroute]
+        obtain ⟨h1, h2, h3⟩ := sendFrameZ_accepted cfg w.ws s 0 s.payload [] hno ht hfb hplan
+        have hsf : (sendFrame cfg w s.payload s.opcode s.compress s.maskKey).1.ws =
+            (sendFrameZ cfg w.ws s.payload s.opcode s.compress s.maskKey []).1 ∧
+            (sendFrame cfg w s.payload s.opcode s.compress s.maskKey).1.comp = w.comp := by
+          unfold sendFrame; rw [if_neg hno]; simp only [hroute]; first | exact ⟨rfl, rfl⟩ | exact ⟨trivial, trivial⟩ | trivial
+        have hw : compWire C cfg d (s :: accepted (w.ws.closing || (Gen.C11.closeLatchesInSendFrame && s.opcode == 8)) ss) =
+            plainFrame cfg.useMask s ++ compWire C cfg d (accepted (w.ws.closing || (Gen.C11.closeLatchesInSendFrame && s.opcode == 8)) ss) := by
+          simp [compWire, hctl]
+        simp only [sendAll]
+        rw [ih _ d (by rw [hsf.1]; exact h2) (by rw [hsf.2]; exact hd) hopsr (by rw [hsf.1, h3]; exact hokr),
+          hsf.1, h1, h3, hw]
+        simp [plainFrame]
+      · rw [if_neg hctl] at hrest
+        obtain ⟨hokd, hokr⟩ := hrest
+        have hop : s.opcode = 1 ∨ s.opcode = 2 := hokd.1
+        have h8 : (s.opcode == 8) = false := by rcases hop with h | h <;> simp [h]
+        have hfb : ¬ ((0x80 ||| 0x40 ||| s.opcode) > 255 ∨
+            (stripTrailing (C.D.deflate d s.payload cfg.notakeover).2).length ≥ 2 ^ 64) := by
+          have := (fb_facts s.opcode (by rcases hop with h | h <;> simp [h]) 64 (by simp)).1
+          have h64 : (2:Nat)^63 < 2^64 := by decide
+          have := hokd.2.1
+          omega
+        have hroute : route cfg s.opcode s.compress s.payload.length =
+            .shared cfg.compress cfg.notakeover (decide (¬ s.payload.length ≤ Gen.C11.maxSyncChunk)) := by
+          unfold route
+          have : ¬ s.opcode ≥ Gen.C11.controlOpcode := by simpa [Gen.C11.controlOpcode] using hctl
+          simp [hs0, hcfg, this]
+        have hplan : framePlan cfg s.payload s.opcode s.compress (C.D.deflate d s.payload cfg.notakeover).2 =
+            (stripTrailing (C.D.deflate d s.payload cfg.notakeover).2, 0x40) := by
+          unfold framePlan; rw [hroute]
+        obtain ⟨h1, h2, h3⟩ := sendFrameZ_accepted cfg w.ws s 0x40 _ _ hno ht hfb hplan
+        have hsf : (sendFrame cfg w s.payload s.opcode s.compress s.maskKey).1.ws =
+            (sendFrameZ cfg w.ws s.payload s.opcode s.compress s.maskKey (C.D.deflate d s.payload cfg.notakeover).2).1 ∧
+            (sendFrame cfg w s.payload s.opcode s.compress s.maskKey).1.comp =
+              some (C.D.deflate d s.payload cfg.notakeover).1 := by
+          unfold sendFrame; rw [if_neg hno]; simp only [hroute, hd]; first | exact ⟨rfl, rfl⟩ | exact ⟨trivial, trivial⟩ | trivial
+        have hw : compWire C cfg d (s :: accepted (w.ws.closing || (Gen.C11.closeLatchesInSendFrame && s.opcode == 8)) ss) =
+            deflFrame cfg.useMask s (stripTrailing (C.D.deflate d s.payload cfg.notakeover).2) ++
+              compWire C cfg (C.D.deflate d s.payload cfg.notakeover).1
+                (accepted (w.ws.closing || (Gen.C11.closeLatchesInSendFrame && s.opcode == 8)) ss) := by
+          simp [compWire, hctl]
+        simp only [sendAll]
+        rw [ih _ _ (by rw [hsf.1]; exact h2) (by rw [hsf.2]) hopsr (by rw [hsf.1, h3]; exact hokr),
+          hsf.1, h1, h3, hw]
+        try simp [deflFrame]
 
 end Aio.C11
